@@ -316,3 +316,68 @@ Inductive prog_confined {A} (d : path) : prog A -> Prop :=
 | pc_do : forall c k, confined d c = true -> (forall r, prog_confined d (k r)) -> prog_confined d (Do c k).
 
 Definition incomparable (a b : path) : Prop := under a b = false /\ under b a = false.
+
+(* ------------------------------------------------------------------ frame and locality of one call *)
+(* [touches c q]: q is one of the call's paths or lies below one (the entries a call can change) *)
+Definition touches (c : call) (q : path) : bool := existsb (fun p => under p q) (call_paths c).
+(* what the outcome of a call can depend on: the touched entries and the parents of its paths *)
+Definition reads (c : call) (q : path) : bool :=
+  touches c q || existsb (fun p => path_eqb q (parent p)) (call_paths c).
+
+Lemma get_remove : forall f p q, p <> [] -> get (remove p f) q = if path_eqb q p then None else get f q.
+Proof.
+  intros f p q Hp. destruct q as [|x q]; simpl.
+  - destruct p; [contradiction|reflexivity].
+  - rewrite lookup_remove. rewrite path_eqb_sym. reflexivity.
+Qed.
+
+Lemma get_rmdir : forall f p f' q, rmdir f p = FOk f' -> get f' q = if path_eqb q p then None else get f q.
+Proof.
+  intros f p f' q H. unfold rmdir in H. destruct p as [|y p]; [discriminate|].
+  destruct (get f (y :: p)) as [[c|]|]; try discriminate.
+  destruct (has_children f (y :: p)); [discriminate|]. inversion H; subst. apply get_remove. discriminate.
+Qed.
+
+Lemma under_nil_r : forall p, under p [] = true -> p = [].
+Proof. intros p H. apply under_spec in H. destruct H as [r H]. symmetry in H. apply app_eq_nil in H. tauto. Qed.
+
+Lemma touches_single : forall p q (c : call), call_paths c = [p] -> touches c q = under p q.
+Proof. intros p q c H. unfold touches. rewrite H. simpl. apply orb_false_r. Qed.
+
+Lemma under_neq_false : forall p q, under p q = false -> path_eqb q p = false.
+Proof. intros p q H. apply path_eqb_neq. apply under_neq. exact H. Qed.
+
+(* frame: a call changes only touched entries *)
+Lemma exec_frame : forall f c f' v q, exec f c = FOk (f', v) -> touches c q = false -> get f' q = get f q.
+Proof.
+  intros f c f' v q H Ht. destruct c; simpl in H;
+    try (rewrite (touches_single p q _ eq_refl) in Ht).
+  - inversion H; reflexivity.
+  - destruct (get f p) as [[d|]|]; inversion H; reflexivity.
+  - destruct (listdir f p); inversion H; reflexivity.
+  - destruct (mkdir f p) as [f1|] eqn:E; inversion H; subst. rewrite (get_mkdir _ _ _ q E).
+    rewrite (under_neq_false _ _ Ht). reflexivity.
+  - destruct (write_file f p empty_content) as [f1|] eqn:E; inversion H; subst.
+    rewrite (get_write_file _ _ _ _ q E). rewrite (under_neq_false _ _ Ht). reflexivity.
+  - unfold write_open in H. destruct (get f p) as [[d|]|] eqn:G; simpl in H;
+      try (inversion H; reflexivity).
+    destruct (write_file f p c) as [f1|] eqn:E; inversion H; subst.
+    rewrite (get_write_file _ _ _ _ q E). rewrite (under_neq_false _ _ Ht). reflexivity.
+  - inversion H; reflexivity.
+  - unfold touches in Ht. simpl in Ht. rewrite orb_false_r in Ht. apply orb_false_iff in Ht. destruct Ht as [Ha Hb].
+    destruct (rename f a b) as [f1|] eqn:E; inversion H; subst. clear H.
+    destruct (path_eqb a b) eqn:Eab.
+    + apply path_eqb_eq in Eab. subst b. unfold rename in E.
+      destruct (get f a) as [na|]; [|discriminate]. destruct (get f (parent a)) as [[d|]|]; try discriminate.
+      rewrite path_eqb_refl in E. inversion E; reflexivity.
+    + apply path_eqb_neq in Eab. destruct (get f a) as [[d|]|] eqn:Ga.
+      * rewrite (get_rename_file f a b d f' q Ga Eab E).
+        rewrite (under_neq_false _ _ Hb), (under_neq_false _ _ Ha). reflexivity.
+      * apply (rename_dir_frame f a b f' q Ga Eab E Ha Hb).
+      * rewrite (rename_missing f a b Ga) in E. discriminate.
+  - destruct (unlink f p) as [f1|] eqn:E; inversion H; subst. rewrite (get_unlink _ _ _ q E).
+    rewrite (under_neq_false _ _ Ht). reflexivity.
+  - destruct (rmdir f p) as [f1|] eqn:E; inversion H; subst. rewrite (get_rmdir _ _ _ q E).
+    rewrite (under_neq_false _ _ Ht). reflexivity.
+  - destruct (get f p); inversion H; reflexivity.
+Qed.
